@@ -24,7 +24,7 @@ import (
 // the workers are awaited through hook H6.
 
 type hyStep struct {
-	Op  string `json:"op"` // set | get | del | overflow | adv | settle
+	Op  string `json:"op"` // set | get | del | overflow | adv | advq | settle | slowget | slowdel
 	K   int    `json:"k,omitempty"`
 	TTL int64  `json:"ttl,omitempty"`
 	N   int    `json:"n,omitempty"`
@@ -200,6 +200,17 @@ func execHybrid(c hyCase, x *verifkit.Ctx, c15 bool) (fail *verifkit.Failure) {
 		defer sh.mu.RUnlock(tk)
 		return sh.hashmap[k]
 	}
+	// cleanFlag: the resident entry of k carries the 'identical copy is in the secondary tier' flag
+	cleanFlag := func(k int) bool {
+		e := memGet(k)
+		if e == nil {
+			return false
+		}
+		store.policyMu.Lock()
+		defer store.policyMu.Unlock()
+		return e.flag.IsFromNVM()
+	}
+	steering := func() bool { return verifkit.Avoid("C14-stale-copy") || hyAlwaysSteer }
 	settle := func() *verifkit.Failure {
 		store.Wait()
 		if !hySettle() {
@@ -231,6 +242,20 @@ func execHybrid(c hyCase, x *verifkit.Ctx, c15 bool) (fail *verifkit.Failure) {
 			if loaderCalls != calls {
 				// the loader ran: this is a fresh write
 				model[k] = &hyModel{val: v, loader: true}
+				if steering() {
+					store.Wait()
+					if cleanFlag(k) {
+						// known finding: the loader wrote in place over an expired promoted entry, which keeps its
+						// 'clean copy' flag and would be evicted without write-back. Steer: drop the key from both tiers.
+						x.Class("steered(known C14-stale-copy)")
+						verifkit.AddCount("steered_known_C14_stale_copy", 1)
+						if err := store.DeleteWithSecondary(k); err != nil {
+							model[k] = &hyModel{unknown: true}
+						} else {
+							model[k] = &hyModel{deleted: true}
+						}
+					}
+				}
 				return false, nil
 			}
 		} else {
@@ -325,14 +350,20 @@ func execHybrid(c hyCase, x *verifkit.Ctx, c15 bool) (fail *verifkit.Failure) {
 		return nil
 	}
 	fresh := 100000
+	freshVals := map[int]int{} // filler keys written by overflow steps (followed by the model only once a probe meets one)
+	lastTick := now()
 	for i, st := range c.Steps {
 		step = i
 		switch st.Op {
 		case "set":
-			if verifkit.Avoid("C14-stale-copy") || hyAlwaysSteer {
+			if steering() {
 				sec.mu.Lock()
 				_, hasCopy := sec.m[st.K]
 				sec.mu.Unlock()
+				if !hasCopy {
+					store.Wait()
+					hasCopy = cleanFlag(st.K) // the copy is gone (expired, deleted there) but the resident entry still claims one
+				}
 				if hasCopy {
 					// known finding: re-writing a key that has a copy in the secondary tier can leave that
 					// copy behind. Steer around it: remove the key from both tiers first.
@@ -391,14 +422,88 @@ func execHybrid(c hyCase, x *verifkit.Ctx, c15 bool) (fail *verifkit.Failure) {
 			for j := 0; j < st.N; j++ {
 				fresh++
 				seq++
-				store.Set(fresh, seq, 1, 0)
+				if store.Set(fresh, seq, 1, 0) {
+					freshVals[fresh] = seq
+				}
 			}
 		case "adv":
 			vkAdvance(st.Dt)
 			if f := tc.tick(); f != nil {
 				return f
 			}
+			lastTick = now()
+		case "advq":
+			// time passes without a maintenance tick: the cached clock goes stale (kept below the 30 s of
+			// known finding C03-stale-cached-clock, from where on the memory tier itself serves expired values)
+			vkAdvance(st.Dt)
+			if now()-lastTick >= 29_000_000_000 {
+				if f := tc.tick(); f != nil {
+					return f
+				}
+				lastTick = now()
+			} else {
+				x.Class("advance-without-tick")
+			}
 		case "settle":
+			if f := settle(); f != nil {
+				return f
+			}
+		case "slowget":
+			// a slow secondary Set (4 ms) during a demotion, and a Get of exactly that key issued by the
+			// client while the worker is inside it: the entry must be in one of the tiers at every moment
+			if f := settle(); f != nil {
+				return f
+			}
+			sec.armed.Store(true)
+			probed := false
+			probe := func(k int) *verifkit.Failure {
+				probed = true
+				if fv, ok := freshVals[k]; ok && model[k] == nil {
+					model[k] = &hyModel{val: fv}
+				}
+				m := model[k]
+				calls := loaderCalls
+				at := now()
+				hit, f := read(k)
+				if f != nil {
+					return f
+				}
+				x.Class("get-during-slow-secondary-set")
+				if c15 && c.Prob == 1 && len(c.FailSet) == 0 && len(c.FailDel) == 0 && m != nil && !m.unknown && !m.deleted && (m.deadline == 0 || at < m.deadline) {
+					if !hit || loaderCalls != calls {
+						return failf("demotion/gap", "key %d (value %d) was being written to the secondary tier by a worker; a Get issued meanwhile missed or reloaded (hit %v, loader calls %d -> %d): the entry had left memory before it reached the secondary tier", k, m.val, hit, calls, loaderCalls)
+					}
+				}
+				return nil
+			}
+			for j := 0; j < c.MaxSize+2 && !probed; j++ {
+				fresh++
+				seq++
+				store.Set(fresh, seq, 1, 0)
+				model[fresh] = &hyModel{val: seq}
+				select {
+				case k := <-sec.entered:
+					if f := probe(k); f != nil {
+						return f
+					}
+				default:
+				}
+			}
+			if !probed {
+				store.Wait()
+				select {
+				case k := <-sec.entered:
+					if f := probe(k); f != nil {
+						return f
+					}
+				case <-time.After(2 * time.Millisecond):
+				}
+			}
+			sec.armed.Store(false)
+			select {
+			case <-sec.entered:
+			default:
+			}
 			if f := settle(); f != nil {
 				return f
 			}
@@ -593,10 +698,20 @@ func genHybrid(c15 bool) func(t *rapid.T) hyCase {
 			case op < 17:
 				return hyStep{Op: "overflow", N: rapid.IntRange(1, 3*c.MaxSize).Draw(t, "n")}
 			case op < 19:
+				if rapid.IntRange(0, 2).Draw(t, "quiet") == 0 {
+					return hyStep{Op: "advq", Dt: rapid.SampledFrom([]int64{1e9, 2e9, 3e9, 25e9}).Draw(t, "dt")}
+				}
 				return hyStep{Op: "adv", Dt: rapid.SampledFrom([]int64{1e9, 3e9, 25e9, 100e9}).Draw(t, "dt")}
 			default:
-				if !c15 && c.Prob == 1 && rapid.Bool().Draw(t, "slow") {
-					return hyStep{Op: "slowdel"}
+				if c.Prob == 1 && len(c.FailSet) == 0 && len(c.FailDel) == 0 {
+					switch rapid.IntRange(0, 3).Draw(t, "slow") {
+					case 0:
+						if !c15 {
+							return hyStep{Op: "slowdel"}
+						}
+					case 1:
+						return hyStep{Op: "slowget"}
+					}
 				}
 				return hyStep{Op: "settle"}
 			}
@@ -607,6 +722,11 @@ func genHybrid(c15 bool) func(t *rapid.T) hyCase {
 			if rapid.IntRange(0, 9).Draw(t, "scenario") == 0 {
 				k := rapid.IntRange(0, c.Keys-1).Draw(t, "gk")
 				ttl := rapid.SampledFrom([]int64{2e9, 50e9}).Draw(t, "gttl")
+				if rapid.Bool().Draw(t, "quietScenario") {
+					// the deadline passes while the copy sits in the secondary tier and no tick refreshes the cached clock
+					return []hyStep{{Op: "set", K: k, TTL: ttl}, {Op: "overflow", N: c.MaxSize + 2}, {Op: "settle"},
+						{Op: "advq", Dt: ttl + rapid.SampledFrom([]int64{0, 1, 1e9}).Draw(t, "over")}, {Op: "get", K: k}}
+				}
 				return []hyStep{{Op: "set", K: k, TTL: ttl}, {Op: "overflow", N: c.MaxSize + 2}, {Op: "settle"}, {Op: "get", K: k},
 					{Op: "adv", Dt: ttl + rapid.SampledFrom([]int64{1, 1e9, 30e9}).Draw(t, "over")}, {Op: "get", K: k}}
 			}
@@ -629,7 +749,7 @@ func TestVerifC14(t *testing.T) {
 	verifkit.Run(t, verifkit.Spec[hyCase]{
 		ID: "C14", Gen: genHybrid(false),
 		Exec:        func(c hyCase, x *verifkit.Ctx) *verifkit.Failure { return execHybrid(c, x, false) },
-		Rule:        "C14: rapid draws MaxSize 2..16, plain or loading hybrid store, entry pool on in a third of the cases, 1..4 workers, admission probability {0,0.3,1}, optional failure scripts for secondary Set/Delete, whether the workers are awaited after each step, and up to 40 steps of Set/SetWithTTL (unique values) / Get / Delete / overflow(n) / advance+tick / settle / 'slowdel' (a 4 ms slow secondary Set during a demotion with a Delete of exactly that key issued while the worker is inside it); non-trivial = a key was demoted and later promoted, or a secondary call failed",
+		Rule:        "C14: rapid draws MaxSize 2..16, plain or loading hybrid store, entry pool on in a third of the cases, 1..4 workers, admission probability {0,0.3,1}, optional failure scripts for secondary Set/Delete, whether the workers are awaited after each step, and up to 40 steps of Set/SetWithTTL (unique values) / Get / Delete / overflow(n) / advance+tick / advance without a tick (cached clock up to 29 s stale) / settle / 'slowget' (a 4 ms slow secondary Set during a demotion with a Get of exactly that key issued meanwhile) / 'slowdel' (a 4 ms slow secondary Set during a demotion with a Delete of exactly that key issued while the worker is inside it); non-trivial = a key was demoted and later promoted, or a secondary call failed",
 		Assumptions: hyAssumptions,
 	})
 }
@@ -658,7 +778,7 @@ func TestVerifC15(t *testing.T) {
 	verifkit.Run(t, verifkit.Spec[hyCase]{
 		ID: "C15", Gen: genHybrid(true),
 		Exec:        func(c hyCase, x *verifkit.Ctx) *verifkit.Failure { return execHybrid(c, x, true) },
-		Rule:        "C15: same harness with admission probability 1 and the workers awaited after every step; a third of the cases script failures of the secondary Set; non-trivial = a loader-originated or TTL-less entry was evicted from memory, or a secondary Set failed",
+		Rule:        "C15: same harness with admission probability 1 and the workers awaited after every step; a third of the cases script failures of the secondary Set; in the others 'slowget' steps read the key a worker is copying while its (4 ms slow) secondary Set is running and require a hit without reload; non-trivial = a loader-originated or TTL-less entry was evicted from memory, or a secondary Set failed",
 		Assumptions: hyAssumptions,
 	})
 }
